@@ -43,6 +43,12 @@ def cases(rng, quick, gr):
         for init in lst:
             use = "Op(v) | 0\n" if ty not in ("int",) else "Op(v, v + 1) | v * 0\n"
             yield {"tag": "scalar-" + ty, "text": HDR + "%s v = %s\n%s" % (ty, init, use)}
+    # declarations around for loops: a variable (scalar or array) declared AFTER a loop whose loop variable had the same name is an
+    # ordinary variable; declarations between and inside other constructs keep their values
+    for nm in ["k", "U", "m"]:
+        for hdr in ["0:3", "[3, 4]", "0:1"]:
+            yield {"tag": "after-loop-same-name", "text": HDR + "int shots = 5\nfor int %s in %s\n    Vac | %s\nint %s = 7\nRgate(%s + 1) | %s\nfloat last = %s / 2\n" % (nm, hdr, nm, nm, nm, nm, nm)}
+            yield {"tag": "after-loop-same-name", "text": HDR + "for int %s in %s\n    Vac | %s\ncomplex array %s[3, 2] =\n    1, 2j\n    3, 4+1j\n    5, 6\nRgate(%s[3], %s) | 1\ncomplex last = %s[5]\n" % (nm, hdr, nm, nm, nm, nm, nm)}
     # complex into int/float must be refused (literal and computed); covered in C11 too
     for ty in ["int", "float"]:
         for init in ["1+2j", "2 * (1+1j)", "1j * 1j"]:
